@@ -5,9 +5,23 @@ from common import Case
 from C12 import agree as _agree12, canon
 
 
+def _erase(o):
+    """Through the Reader a ParseError is only visible as the TEXT of an io::Error of kind Other; C04 asks for "an error
+    for a malformed or blank line", not for a particular wording, so every such error is one class here (the ParseError
+    variants themselves are compared by C12 on `parse` cases, where they are API).  An io::Error of kind InvalidData
+    (a line that is not UTF-8) stays a class of its own: its kind is API."""
+    if isinstance(o, list):
+        if len(o) == 2 and o[0] == 'err' and o[1] != 'io-invalid-data':
+            return ['err', 'parse']
+        return [_erase(x) for x in o]
+    return o
+
+
 def agree(case, impl, model):
     if case.startswith('(wrfail'):
         return impl == '(r oracle-only ok)'
+    if case.startswith('(read') or case.startswith('(wr'):
+        return _erase(canon(case, impl)) == _erase(canon(case, model))
     return _agree12(case, impl, model)
 
 ID = 'C04'
